@@ -1,3 +1,37 @@
 package main
 
-func selftestMain(args []string) int { return 0 }
+import (
+	"fmt"
+	"os"
+)
+
+// selftestMain validates the engine against the native build (DESIGN
+// §3.3): the conformance set (63 value kinds x 50 directives through
+// redact and the standard fmt) and the regexp model against the host
+// regexp engine on every string of <= 4 symbols over an 8-symbol
+// alphabet.  Every path is replayed natively and all observed outputs
+// must agree.
+func selftestMain(args []string) int {
+	dir, err := os.MkdirTemp("", "gosym-selftest-")
+	if err != nil {
+		fmt.Fprintln(os.Stderr, err)
+		return 2
+	}
+	defer os.RemoveAll(dir)
+	verifDir = dir
+	rc := 0
+	for _, id := range []string{"CONF", "RECONF"} {
+		if id == "RECONF" {
+			os.Setenv("GOSYM_FORCE_RE", "1")
+		}
+		r := checkMain([]string{id})
+		if r != 0 || lastRun.mismatched != 0 || lastRun.inconclusive != 0 || lastRun.validated != lastRun.paths {
+			fmt.Printf("SELFTEST %s FAILED: rc=%d validated=%d/%d mismatched=%d inconclusive=%d\n", id, r, lastRun.validated, lastRun.paths, lastRun.mismatched, lastRun.inconclusive)
+			rc = 2
+		} else {
+			fmt.Printf("selftest %s ok: %d engine paths agree with the native build\n", id, lastRun.validated)
+		}
+	}
+	os.Unsetenv("GOSYM_FORCE_RE")
+	return rc
+}
